@@ -4,8 +4,11 @@ set -e
 cd "$(dirname "$0")"
 export CARGO_NET_OFFLINE=true
 mkdir -p .work evidence
+( cd rs2lean && cargo build --offline --release )
+rs2lean/target/release/rs2lean "${VERIF_REPO:-/repo}/src" lean/Sm9/Gen
+python3 tools/gen_equiv.py lean/Sm9/Gen
 python3 tools/extract_consts.py "${VERIF_REPO:-/repo}" lean/Sm9/Gen/Consts.lean
-( cd lean && lake build sm9drv && lake build Sm9 )
+( cd lean && lake build sm9drv && lake build Sm9 Sm9.Gen.Equiv )
 ( cd harness && RUSTFLAGS="--cfg john_yu_sm9_core_verif" cargo build --offline --release --target-dir target/int \
              && RUSTFLAGS="--cfg john_yu_sm9_core_verif" cargo build --offline --target-dir target/int )
 echo setup done
